@@ -18,6 +18,7 @@ import LianVerif.Drv.Flatten
 import LianVerif.Drv.WfCheck
 import LianVerif.Drv.Table
 import LianVerif.Drv.BlockView
+import LianVerif.Drv.Workspace
 
 open Lean LianVerif.Drv
 
@@ -42,6 +43,7 @@ def dispatch (j : Json) : Except String Json := do
   | "table" => LianVerif.Drv.Table.handle j
   | "tablealias" => LianVerif.Drv.Table.handleAlias j
   | "blockview" => LianVerif.Drv.BlockView.handle j
+  | "workspace" => LianVerif.Drv.Workspace.handle j
   | _ => throw s!"unknown model {m}"
 
 partial def loop (hin hout : IO.FS.Stream) : IO Unit := do
